@@ -338,6 +338,8 @@ def replay(path):
                     for k, v in (rp.get("counterexample_inputs") or {}).items():
                         if v in ("True", "False"):
                             vals[k] = v == "True"
+                        elif v.startswith("["):          # an input array, printed as nested lists
+                            vals[k] = eval(v, {"__builtins__": {}}, {"nan": float("nan"), "inf": float("inf")})
                         else:
                             vals[k] = fractions.Fraction(v) if "/" in v or "." in v else int(v)
                     st, detail, used = PR.run_concrete(c, inst, vals)
